@@ -41,7 +41,11 @@ Program (JSON-serialisable: to_json()/from_json(); plain data, no Hypothesis nee
     .write(dirpath) -> absolute path of the root file (creates directories)
     .options {"auto_pad","validate_alignment","import_coredefs"}   (also attributes .auto_pad ...)
     .compile_kwargs() -> the three options as keyword arguments of Parser(...) / compile(...)
-    .shape  graph shape class ("single","chain","tree","diamond","dag","repeat","respell","cycle")
+    .shape  graph shape class ("single","chain","tree","diamond","dag","repeat","respell","cycle","twins")
+    .twin_files  shape "twins" (>= 5 files): the same relative import spelling (x.yaml / ./x.yaml / ../lib/x.yaml) denotes
+            DIFFERENT files in different directories (classes "twins", "twins/plain|dot|dotdot"), optionally a user file
+            named data_logger.yaml / quick_logger.yaml like a file the core definitions import ("twins/core-shadow"); twin_files
+            lists those files; inject_conflict(..., files=(A, B)) puts the two items into given files
     .classes  set of construct-class strings used (see CLASS NAMES below)   .wellformed  bool
     .conflict / .expect / .edited / .relocated   (None unless produced by the respective function)
     .expected_error  None, or the exception class name an intentionally ill-formed program must be rejected with
@@ -100,6 +104,9 @@ DEFAULT-ON classes added 2026-10-04 (plain documented syntax)
         name first and longer name first; Def.value / FieldSpec.length carry the word-bounded (correct) result
     div-length: array lengths written with '/' whose value is an exact whole number >= 1 (``A / B`` with A % B == 0, ``A / 2``)
 OPT_IN classes (never produced unless listed in ``allow``; each is tied to a known compiler defect)
+    "prefix-names" also yields names <table>_<rest> for every output table / prefix of the back ends (TABLE_PREFIXES), half of
+        the time together with another definition named <rest> (classes "table-prefix-name", "table-prefix/<P>",
+        "table-prefix-name-with-remainder"); build_prefix_cover_program(ch, import_coredefs=False) covers every prefix in one closure
     "long-names": ~20% of the definition names get a drawn length from COVER_NAME_LENGTHS or 1..63 (classes "long-names",
         "name-length-<n>"/"name-length-other").  NOTE: on /repo 3e08c53 the C back end writes '#define MT_<name><value>'
         without a separator for names of >= 48 characters (constants, MT_, MID_, HID_; see scratch/fixes/c-define-long-name.diff)
@@ -167,6 +174,10 @@ _UP = ["JOINT", "ANGLE", "FORCE", "TORQUE", "SENSOR", "CURSOR", "TARGET", "TRIAL
        "STATE", "CONFIG", "SAMPLE", "BUFFER", "FRAME", "PACKET", "STREAM", "EVENT", "STATUS", "COMMAND", "REPLY", "QUERY",
        "MOTOR", "PLANNER", "DECODER", "FILTER", "GAIN", "LIMIT", "COUNT", "INDEX", "OFFSET", "WINDOW", "CHANNEL",
        "ELECTRODE", "STIM", "PULSE", "TIMER", "CLOCK"]
+# names of the tables / prefixes the four back ends use for their outputs (MATLAB RTMA.<table>, JS RTMA.<table>, C and Python
+# macro / class prefixes): a definition named <table>_<rest> must not be confused with <rest>
+TABLE_PREFIXES = ["hash", "HASH", "MT", "MID", "HID", "MDF", "SDF", "typedefs", "defines", "constants", "aliases", "vars", "mex_opcode",
+                  "MTN_by_MT", "MDF_by_MT", "MESSAGE_HEADER", "RTMA", "Hash", "mt", "mdf"]
 _PREFIX_TRAPS = ["PYRAMID_SOLVER", "SUBMT_DONE", "ORCHID_NODE", "HUMID_SENSOR", "DREAMT_STATE", "AMID_TRIAL", "XMT_FRAME"]
 _LOW = ["pos", "vel", "acc", "force", "torque", "angle", "gain", "count", "index", "value", "flag", "mode", "state",
         "status", "code", "sample", "chan", "rate", "level", "width", "height", "depth", "phase", "freq", "amp", "bias",
@@ -476,6 +487,7 @@ class Program:
         self.noise = None
         self.expected_error: Optional[str] = None  # exception class name an ill-formed program must be rejected with
         self.fault: Optional[dict] = None
+        self.twin_files: List[str] = []  # shape "twins": files reached under a relative spelling that also denotes another file
         self._files = files
         self._an = None
 
@@ -520,7 +532,7 @@ class Program:
         return {
             "root": self.root, "options": self.options, "shape": self.shape, "classes": sorted(self.classes),
             "wellformed": self.wellformed, "conflict": self.conflict, "expect": self.expect, "edited": self.edited,
-            "relocated": self.relocated, "noise": self.noise, "expected_error": self.expected_error, "fault": self.fault, "files": dict(self.files), "specs": [asdict(s) for s in self.specs],
+            "relocated": self.relocated, "noise": self.noise, "expected_error": self.expected_error, "fault": self.fault, "twin_files": self.twin_files, "files": dict(self.files), "specs": [asdict(s) for s in self.specs],
         }
 
     @classmethod
@@ -531,6 +543,7 @@ class Program:
         p.noise = d.get("noise")
         p.expected_error = d.get("expected_error")
         p.fault = d.get("fault")
+        p.twin_files = d.get("twin_files") or []
         return p
 
     def clone(self) -> "Program":
@@ -538,6 +551,7 @@ class Program:
                     copy.deepcopy(self.conflict), copy.deepcopy(self.expect), None, copy.deepcopy(self.edited),
                     copy.deepcopy(self.relocated))
         q.expected_error = self.expected_error
+        q.twin_files = list(self.twin_files)
         return q
 
     # ---- structure -------------------------------------------------------------------------------
@@ -1133,6 +1147,7 @@ class _Builder:
         # the repository's fixes for F15/F16; the two names stay valid in ``allow`` for callers that list them
         self.allow = set(allow) | {"alias-of-imported-struct", "alias-of-imported-struct-field"}
         self.chain: Dict[str, int] = {}  # alias name -> length of its alias chain (1 = alias of a native/struct)
+        self.pending_names: List[str] = []
         self.rich = rich
         self.names: Set[str] = set(core_defs()["names"]) | set(core_defs()["host_ids"]) | set(core_defs()["module_ids"])
         self.msg_ids: Set[int] = set()
@@ -1148,12 +1163,27 @@ class _Builder:
     # ---- names and ids -------------------------------------------------------------------------
     def fresh_name(self) -> str:
         ch = self.ch.cos
+        if self.pending_names:
+            return self.pending_names.pop(0)
         if "prefix-names" in self.allow and ch.chance(0.04):
             for cand in ch.shuffled(_PREFIX_TRAPS):
                 if cand not in self.names:
                     self.names.add(cand)
                     self.classes.add("prefix-names")
                     return cand
+        if "prefix-names" in self.allow and ch.chance(0.08):
+            # <table>_<rest>, half of the time together with another definition named <rest>
+            pre = ch.choice(TABLE_PREFIXES)
+            rest = ch.choice(_UP) + ("_" + ch.choice(_UP) if ch.chance(0.5) else "")
+            cand = f"{pre}_{rest}"
+            if cand not in self.names and rest not in self.names:
+                self.names.add(cand)
+                self.classes |= {"prefix-names", "table-prefix-name", f"table-prefix/{pre}"}
+                if ch.chance(0.5):
+                    self.names.add(rest)
+                    self.pending_names.append(rest)
+                    self.classes.add("table-prefix-name-with-remainder")
+                return cand
         if "long-names" in self.allow and ch.chance(0.2):
             ln = ch.choice(COVER_NAME_LENGTHS) if ch.chance(0.6) else ch.integer(1, MAX_NAME_LENGTH)
             self.classes.add("long-names")
@@ -1640,14 +1670,50 @@ def build_program(ch: Chooser, max_files: int = 6, min_files: int = 1, import_co
         max_files = max(max_files, 5)
     n = ch.integer(min_files, max_files)
     if shape is None:
-        shape = ch.weighted([("tree", 3), ("chain", 2), ("diamond", 3), ("dag", 3), ("repeat", 2), ("respell", 2), ("cycle", 3)])
+        shape = ch.weighted([("tree", 3), ("chain", 2), ("diamond", 3), ("dag", 3), ("repeat", 2), ("respell", 2), ("cycle", 3),
+                             ("twins", 3 if max_files >= 5 else 0)])
+    twins = shape == "twins"
+    if twins:
+        n = max(n, 5)
     if n == 1:
         gshape = "single"
     else:
         gshape = shape
-    edges, gclasses = _gen_graph(ch, n, gshape, skeleton)
+    edges, gclasses = _gen_graph(ch, n, "tree" if twins else gshape, skeleton or twins)
     ndirs = ch.integer(1, min(3, n))
     paths, dirs = _file_names(ch, n, ndirs)
+    forced_spell: Dict[Tuple[int, int], str] = {}
+    if twins:
+        # the SAME relative import spelling denotes DIFFERENT files: x.yaml of two directories (files 3 and 4 of the skeleton
+        # root->{1,2}, 1->3, 2->4), optionally a user file that shares its name with a file the core definitions import
+        gclasses = set(gclasses) | {"twins"}
+        cs0 = ch.cos
+        da, db = cs0.shuffled(["alpha", "beta", "gamma", "rig_a", "rig_b"])[:2]
+        w = cs0.choice(["types", "common", "units", "defs", "shared"])
+        w1, w2 = cs0.shuffled(["arm", "hand", "cursor", "stim", "decoder"])[:2]
+        variant = ch.choice(["plain", "dot", "dotdot"])
+        paths[0] = "root.yaml"
+        if variant == "dotdot":
+            paths[1:5] = [f"{da}/app/{w1}.yaml", f"{db}/app/{w2}.yaml", f"{da}/lib/{w}.yaml", f"{db}/lib/{w}.yaml"]
+            forced_spell[(1, 3)] = forced_spell[(2, 4)] = f"../lib/{w}.yaml"
+        else:
+            paths[1:5] = [f"{da}/{w1}.yaml", f"{db}/{w2}.yaml", f"{da}/{w}.yaml", f"{db}/{w}.yaml"]
+            forced_spell[(1, 3)] = f"{w}.yaml"
+            forced_spell[(2, 4)] = f"./{w}.yaml" if variant == "dot" else f"{w}.yaml"
+        gclasses.add("twins/" + variant)
+        if opts["import_coredefs"] and n >= 6 and ch.chance(0.6):
+            # a user's own data_logger.yaml / quick_logger.yaml next to its importer: core_defs.yaml imports files of that name too
+            k = 5
+            imp = [i for i in range(n) if k in edges[i]][0]
+            shadow = cs0.choice(["data_logger.yaml", "quick_logger.yaml"])
+            idir = posixpath.dirname(paths[imp])
+            paths[k] = (idir + "/" if idir else "") + shadow
+            forced_spell[(imp, k)] = shadow
+            gclasses.add("twins/core-shadow")
+        for k in range(5, n):
+            if paths[k] in paths[:k]:
+                paths[k] = f"extra_{k}.yaml"
+        dirs = sorted({posixpath.dirname(q) for q in paths})
     specs = [FileSpec(path=p) for p in paths]
     classes = set(gclasses)
     if len({posixpath.dirname(p) for p in paths}) > 1:
@@ -1660,7 +1726,9 @@ def build_program(ch: Chooser, max_files: int = 6, min_files: int = 1, import_co
         for j in edges[i]:
             k = seen_t.get(j, 0)
             seen_t[j] = k + 1
-            if gshape == "repeat" and k:
+            if (i, j) in forced_spell:
+                sp = forced_spell[(i, j)]
+            elif gshape == "repeat" and k:
                 sp = [x for x, t in s.imports if t == paths[j]][0]  # literally the same line again
             elif respell:
                 sp = _spell(ch, s.path, paths[j], dirs, variant=ch.integer(0, 2) + k)
@@ -1692,6 +1760,8 @@ def build_program(ch: Chooser, max_files: int = 6, min_files: int = 1, import_co
     # fill the files in the order the parser reads their bodies
     prog = Program(specs, paths[0], opts, gshape, classes)
     an = prog._analysis()
+    if twins:
+        prog.twin_files = [paths[3], paths[4]] + [q for q in paths[5:] if posixpath.basename(q) in ("data_logger.yaml", "quick_logger.yaml")]
     order = an.order
     b = _Builder(ch, opts, allow, rich)
     pos = {f: i for i, f in enumerate(order)}
@@ -1707,6 +1777,9 @@ def build_program(ch: Chooser, max_files: int = 6, min_files: int = 1, import_co
         if f == order[-1]:
             have = sum(1 for d in b.defs.values() if d.kind == "message")
             quota["message"] = max(quota["message"], min_messages - have)
+        if f in prog.twin_files:  # something the registry oracle looks for
+            quota["constant"] = max(1, quota["constant"])
+            quota["signal"] = max(1, quota["signal"])
         b.fill_file(prog.spec(f), vis, quota)
     for s_ in specs:
         if not s_.imports and not s_.defs and not s_.null_sections:
@@ -1888,6 +1961,51 @@ def build_name_cover_program(ch: Chooser, import_coredefs: bool = False, lengths
     probs = prog.problems()
     if probs:
         raise GeneratorBug("name cover program is not well-formed: " + "; ".join(probs[:4]))
+    return prog
+
+
+def build_prefix_cover_program(ch: Chooser, import_coredefs: bool = False, prefixes: Sequence[str] = tuple(TABLE_PREFIXES)) -> Program:
+    """One well-formed closure with, for EVERY output-table prefix P of the back ends (TABLE_PREFIXES: hash, HASH, MT, MID, HID,
+    MDF, SDF, typedefs, defines, constants, aliases, ...), a message ``P_<W>`` and a signal ``P_<V>``, for every second prefix also a
+    message / signal named like the remainders ``<W>`` / ``<V>``, plus a struct, a constant, a module id and a host id ``P_<X>``.
+    Classes "prefix-names", "table-prefix-name", "table-prefix/<P>", "table-prefix-name-with-remainder"."""
+    cs = ch.cos
+    spec = FileSpec(path="root.yaml", indent=cs.choice([2, 4]))
+    opts = {"auto_pad": True, "validate_alignment": True, "import_coredefs": import_coredefs}
+    prog = Program([spec], "root.yaml", opts, "single", {"prefix-names", "table-prefix-name"})
+    used = set(core_defs()["names"]) | set(core_defs()["host_ids"]) | set(core_defs()["module_ids"])
+    ids = iter(cs.shuffled(range(1000, 9999)))
+    mods = iter(cs.shuffled(range(10, 99)))
+    hosts = iter(cs.shuffled(range(1, 32766))[:64])
+
+    def word():
+        for _ in range(100):
+            w = cs.choice(_UP) + "_" + cs.choice(_UP)
+            if w not in used and not any(f"{p}_{w}" in used for p in prefixes):
+                used.add(w)
+                return w
+        raise GeneratorBug("no free word")
+
+    for i, pre in enumerate(prefixes):
+        w, v, x = word(), word(), word()
+        spec.defs.append(Def("message", f"{pre}_{w}", spec.path, id=next(ids), flags=["message"], fields=[FieldSpec("a", "int32", "int32"), FieldSpec("b", "double", "double")]))
+        spec.defs.append(Def("signal", f"{pre}_{v}", spec.path, id=next(ids), flags=["signal"]))
+        if i % 2 == 0:
+            spec.defs.append(Def("message", w, spec.path, id=next(ids), flags=["message"], fields=[FieldSpec("c", "uint8", "uint8", 4, "4")]))
+            spec.defs[-1].fields[0].type_text = "uint8[4]"
+            spec.defs.append(Def("signal", v, spec.path, id=next(ids), flags=["signal"]))
+            prog.classes.add("table-prefix-name-with-remainder")
+        spec.defs.append(Def("struct", f"{pre}_{x}", spec.path, flags=["struct"], fields=[FieldSpec("a", "int16", "int16")]))
+        if i < 40:
+            spec.defs.append(Def("constant", f"{pre}_{x}_C", spec.path, value=3 + i, text=str(3 + i), flags=["const-int"]))
+            spec.defs.append(Def("module", f"{pre}_{x}_M", spec.path, value=next(mods), flags=["module-id"]))
+            spec.defs.append(Def("host", f"{pre}_{x}_H", spec.path, value=next(hosts), flags=["host-id"]))
+        prog.classes.add(f"table-prefix/{pre}")
+    spec.defs = cs.shuffled(spec.defs)
+    prog.rerender()
+    probs = prog.problems()
+    if probs:
+        raise GeneratorBug("prefix cover program is not well-formed: " + "; ".join(probs[:4]))
     return prog
 
 
@@ -2273,7 +2391,7 @@ def _mk_named(kind: str, name: str, path: str, ctx: _Ctx, ch: Chooser, flavour: 
 
 
 def inject_conflict(program: Program, kind: str, placement: str, ch: Chooser, swap: bool = False,
-                    variant: Optional[dict] = None) -> Optional[Program]:
+                    variant: Optional[dict] = None, files: Optional[Tuple[str, str]] = None) -> Optional[Program]:
     """Copy of ``program`` (which must be well-formed) with exactly one conflict.  Item 1 goes to file A, item 2 to
     file B of a file pair with the requested placement (``swap`` exchanges the roles; in one file it exchanges the
     order).  Returns None when the import graph has no such pair.  The result's ``conflict`` dict names the files,
@@ -2282,6 +2400,8 @@ def inject_conflict(program: Program, kind: str, placement: str, ch: Chooser, sw
         raise ValueError((kind, placement))
     variant = dict(variant or {})
     pairs = file_pairs(program, placement)
+    if files is not None:  # explicit location of the two items (the placement is then only a label)
+        pairs = [tuple(files)]
     if not pairs:
         return None
     q = program.clone()
